@@ -7,6 +7,7 @@ from twisted.python import log
 from twisted.internet import defer, endpoints, task
 from twisted.application import internet
 from autobahn.twisted import websocket
+from autobahn.exception import Disconnected
 from . import _interfaces, errors
 from .util import (bytes_to_hexstr, hexstr_to_bytes, bytes_to_dict,
                    dict_to_bytes, provides)
@@ -280,7 +281,15 @@ class RendezvousConnector:
         self._debug(f"R.tx({mtype.upper()} {kwargs.get('phase', '')})")
         payload = dict_to_bytes(kwargs)
         self._timing.add("ws_send", _side=self._side, **kwargs)
-        self._ws.sendMessage(payload, False)
+        try:
+            self._ws.sendMessage(payload, False)
+        except Disconnected:
+            # the websocket is in its closing handshake (the server sent a
+            # Close frame, the TCP connection is not down yet). This message
+            # is lost like anything in flight when a connection drops:
+            # ws_close() will tell the state machines, which re-send
+            # everything unacknowledged on the next connection.
+            pass
         # might be nice to have a "debug" hook here to track all
         # messages sent to the mailbox, with timestamps
 
